@@ -17,7 +17,7 @@ ASSUMPTIONS = ["ownership of a kind = the package that defines its entity class 
                "iq results/errors are exercised through C08's request/reply path; encryption-specific stanzas through C03",
                "with the encryption layers present outgoing messages are judged at the probe below the protocol group"]
 REQUIRED = ["outgoing_cases", "incoming_cases", "expected_one_observed_one", "expected_zero_observed_zero", "selections", "kinds_outgoing", "kinds_incoming",
-            "encrypted_incoming", "encrypted_incoming_ok", "encrypted_incoming:first-message", "encrypted_incoming:later-message", "encrypted_incoming:group-with-distribution", "encrypted_incoming:group-sender-key-only", "encrypted_incoming:group-pairwise-only", "with_enc", "without_enc", "send_handlers_seen", "direction_switches", "reply_inside_send_cases", "reply_cases", "reply_one_entity", "reply_with_others_outstanding", "reply:error", "reply:result"]
+            "incoming_newer_shape", "incoming_newer_shape_ok", "encrypted_incoming", "encrypted_incoming_ok", "encrypted_incoming:first-message", "encrypted_incoming:later-message", "encrypted_incoming:group-with-distribution", "encrypted_incoming:group-sender-key-only", "encrypted_incoming:group-pairwise-only", "with_enc", "without_enc", "send_handlers_seen", "direction_switches", "reply_inside_send_cases", "reply_cases", "reply_one_entity", "reply_with_others_outstanding", "reply:error", "reply:result"]
 TIMEOUT = {"quick": 600, "thorough": 7200}
 
 INCOMING_FIXTURES = ["message_text", "message_media_contact", "message_media_downloadable_audio", "message_media_downloadable_image",
@@ -193,6 +193,25 @@ def check_incoming(acc, kit, name, cls, tree, sel, with_enc, w):
     else:
         acc.count("expected_zero_observed_zero")
     acc.count("cell_in:%s" % name)
+    # every 9th stanza comes once more with something this version of the library does not know (an extra attribute, an extra
+    # child after the known ones: what a newer server adds): still exactly one entity of the same class
+    n = acc.counters.get("incoming_cases", 0)
+    if n % 9 == 0 and tree[3] is None:
+        how = (n // 9) % 3
+        t2 = (tree[0], dict(tree[1], **({"verif-new-attr": "1"} if how in (0, 2) else {})), list(tree[2]) + ([("verif-new-child", {"k": "v"}, [], None)] if how in (1, 2) else []), None)
+        acc.count("incoming_newer_shape")
+        kit.clear()
+        try:
+            kit.inject(t2)
+        except Exception as e:  # noqa
+            acc.violation("incoming-newer-shape-raises:%s:%s" % (name, type(e).__name__), "an incoming %s stanza with an unknown extra %s raised %r" % (name, ["attribute", "child", "attribute and child"][how], e), dict(w, newer_shape=how))
+            return
+        got = kit.top.received
+        if len(got) != expect or (expect and type(got[0]) is not cls):
+            acc.violation("incoming-newer-shape-count:%s:%d-for-%d" % (name, len(got), expect), "an incoming %s stanza with an unknown extra %s produced %d entities (%s), expected %d of class %s"
+                          % (name, ["attribute", "child", "attribute and child"][how], len(got), [type(x).__name__ for x in got][:3], expect, cls.__name__), dict(w, newer_shape=how))
+            return
+        acc.count("incoming_newer_shape_ok")
 
 
 def reply_rounds(acc, kit, sel, enc, sname, seed, rounds):
